@@ -11,6 +11,9 @@
 //   getters    every stored integer x every integer getter, inside a real test (fixture)
 //   api_param  expectOneCall().withParameter(a) / actualCall().withParameter(b) inside a real test
 //   api_return andReturnValue(a) / returnXxxValue() inside a real test
+//   reuse      every ordered pair (first setter, second setter) over all kinds incl. objects with/without comparator, with
+//              setSize/setName in between and setSize after: the reused object must be indistinguishable from a fresh one
+//              that only received the second set (differential oracle: type, text, size, legal getters, equals verdicts)
 // Oracle: __int128 equality, libc-free content comparison on std::string, IEEE rules written out.
 #include <new>
 #include <cmath>
@@ -78,9 +81,9 @@ const char* const PRE[4] = {"new-on-zeroed-storage", "new-on-0xff-storage", "reu
 struct Slot {
     alignas(16) unsigned char raw[sizeof(MockNamedValue)];
     MockNamedValue* v;
-    explicit Slot(int pre) {
+    explicit Slot(int pre, const char* name = "p") {
         memset(raw, (pre == 1 || pre == 3) ? 0xFF : 0x00, sizeof raw);
-        v = new (raw) MockNamedValue("p");
+        v = new (raw) MockNamedValue(name);
         if (pre == 2) { v->setMemoryBuffer(g_junk, 5); v->setValue(bits2double(0xA5A5A5A5A5A5A5A5ULL), bits2double(0x5A5A5A5A5A5A5A5AULL)); }
         if (pre == 3) { v->setValue("stale"); v->setValue((unsigned long long)~0ULL); }
     }
@@ -255,6 +258,187 @@ std::string pair_text(const Val& x, int px, const Val& y, int py) {
 }
 
 } // namespace
+
+// ------------------------------------------------------------------ reuse: the history of a value object must not matter
+namespace {
+enum { A_VAL = 0, A_DOUBLE_DEFAULT_TOL, A_OBJ, A_COBJ };
+struct Act {
+    int how = A_VAL;
+    Val v;                 // A_VAL: any Kind; A_DOUBLE_DEFAULT_TOL: v.d; objects: v.p
+    std::string tname;     // object type name
+    std::string gname;     // kind group (outcomes)
+    std::string label;
+    bool rep = false;      // representative: used as FIRST setter in the quick tier
+    bool is_obj() const { return how == A_OBJ || how == A_COBJ; }
+};
+void apply_act(MockNamedValue& m, const Act& a) {
+    switch (a.how) {
+    case A_DOUBLE_DEFAULT_TOL: m.setValue(a.v.d); break;
+    case A_OBJ: m.setObjectPointer(a.tname.c_str(), const_cast<void*>(a.v.p)); break;
+    case A_COBJ: m.setConstObjectPointer(a.tname.c_str(), a.v.p); break;
+    default: apply(m, a.v);
+    }
+}
+bool cmp_int_equal(const void* a, const void* b) { return *(const int*)a == *(const int*)b; }
+SimpleString cmp_int_str(const void* a) { return StringFrom(*(const int*)a); }
+void copy_int(void* d, const void* s) { *(int*)d = *(const int*)s; }
+
+struct Obs {
+    std::string name, type, text, getters; size_t size = 0; const void *comparator = nullptr, *copier = nullptr;
+    bool complete = false; size_t failures = 0;
+};
+// everything a user can read from the object without failing the test, for a value set by `a`
+void observe(const MockNamedValue& m, const Act& a, Obs& o) {
+    vf::Fixture fx;
+    fx.run([&] {
+        o.name = m.getName().asCharString();
+        o.type = m.getType().asCharString();
+        o.text = m.toString().asCharString();
+        o.size = m.getSize();
+        o.comparator = m.getComparator(); o.copier = m.getCopier();
+        std::string& g = o.getters;
+        auto ig = [&](int getter) { g += std::string(GN[getter]) + "=" + s128(call_getter(m, getter)) + ";"; };
+        if (a.how == A_DOUBLE_DEFAULT_TOL || (a.how == A_VAL && a.v.kind == K_DOUBLE)) {
+            g += vf::fmt("getDoubleValue=%016llx;", double2bits(m.getDoubleValue()));
+            g += vf::fmt("getDoubleTolerance=%016llx(%.17g);", double2bits(m.getDoubleTolerance()), m.getDoubleTolerance());
+        } else if (a.is_obj()) {
+            g += vf::fmt("getObjectPointer=%p;getConstObjectPointer=%p;", m.getObjectPointer(), m.getConstObjectPointer());
+        } else switch (a.v.kind) {
+            case K_BOOL: g += vf::fmt("getBoolValue=%d;", (int)m.getBoolValue()); break;
+            case K_INT: ig(K_INT); ig(K_LONG); ig(K_LL); if (a.v.i >= 0) { ig(K_UINT); ig(K_ULONG); ig(K_ULL); } break;
+            case K_UINT: ig(K_UINT); ig(K_LONG); ig(K_ULONG); ig(K_LL); ig(K_ULL); break;
+            case K_LONG: ig(K_LONG); ig(K_LL); if (a.v.i >= 0) { ig(K_ULONG); ig(K_ULL); } break;
+            case K_ULONG: ig(K_ULONG); ig(K_ULL); if (a.v.i < P63) ig(K_LL); break;
+            case K_LL: ig(K_LL); if (a.v.i >= 0) ig(K_ULL); break;
+            case K_ULL: ig(K_ULL); break;
+            case K_PTR: g += vf::fmt("getPointerValue=%p;", m.getPointerValue()); break;
+            case K_CPTR: g += vf::fmt("getConstPointerValue=%p;", m.getConstPointerValue()); break;
+            case K_FPTR: g += vf::fmt("getFunctionPointerValue=%p;", (void*)(uintptr_t)m.getFunctionPointerValue()); break;
+            case K_STR: g += vf::fmt("getStringValue=%p;", (const void*)m.getStringValue()); break;
+            case K_MEM: g += vf::fmt("getMemoryBuffer=%p;", (const void*)m.getMemoryBuffer()); break;
+            default: break;
+        }
+        o.complete = true;
+    });
+    o.failures = fx.failures();
+}
+} // namespace
+
+static void run_reuse(const bool T, const std::string& X) {
+    static unsigned char rb[3] = {'a', 0, 'b'};
+    static unsigned char rb2[2] = {'a', 0};
+    static int c1 = 1, c2 = 1, c3 = 2;
+    const double INF = std::numeric_limits<double>::infinity(), QNAN = std::numeric_limits<double>::quiet_NaN();
+    MockFunctionComparator cmp(cmp_int_equal, cmp_int_str);
+    MockFunctionCopier cop(copy_int);
+    MockNamedValueComparatorsAndCopiersRepository repo;
+    repo.installComparator("C", cmp);
+    repo.installCopier("C", cop);
+    MockNamedValue::setDefaultComparatorsAndCopiersRepository(&repo);    // constant during the section: type "C" has a comparator and a copier, type "T" has none
+
+    std::vector<Act> A;
+    auto add = [&](int how, Val v, const std::string& gname, const std::string& label, bool rp, const char* tname = "") {
+        Act a; a.how = how; a.v = v; a.gname = gname; a.label = label; a.rep = rp; a.tname = tname; A.push_back(a);
+    };
+    add(A_VAL, vbool(false), "bool", "setValue(bool false)", true); add(A_VAL, vbool(true), "bool", "setValue(bool true)", true);
+    for (int t = 0; t < NI; t++) {
+        add(A_VAL, vint(t, 0), KN[t], std::string("setValue(") + KN[t] + " 0)", true);
+        add(A_VAL, vint(t, 1), KN[t], std::string("setValue(") + KN[t] + " 1)", false);
+        add(A_VAL, vint(t, tmax(t)), KN[t], std::string("setValue(") + KN[t] + " max)", true);
+        if (tmin(t) < 0) add(A_VAL, vint(t, tmin(t)), KN[t], std::string("setValue(") + KN[t] + " min)", false);
+    }
+    const double DV[] = {1.0, 5.0, 0.0, INF, QNAN};
+    for (double d : DV) add(A_DOUBLE_DEFAULT_TOL, vdouble(d, 0), "double(no tolerance given)", vf::fmt("setValue(double %g)", d), d == 1.0 || d == 5.0);
+    const double DT[][2] = {{1.0, 0.0}, {1.0, 0.4}, {5.0, 1e300}, {1.0, INF}, {1.0, QNAN}, {1.3, 0.005}, {1.004, 0.005}, {5.3, 0.005}, {1.0, 0.005}};
+    for (auto& dt : DT) add(A_VAL, vdouble(dt[0], dt[1]), "double(with tolerance)", vf::fmt("setValue(double %g, tolerance %g)", dt[0], dt[1]), dt[1] == 0.0 || dt[1] == 0.4 || dt[1] == 1e300);
+    const char* s0 = heap_str(""); const char* s1 = heap_str("a"); const char* s2 = heap_str("ab");
+    add(A_VAL, vstr(s0, "\"\""), "const char*", "setValue(\"\")", false); add(A_VAL, vstr(s1, "\"a\""), "const char*", "setValue(\"a\")", true); add(A_VAL, vstr(s2, "\"ab\""), "const char*", "setValue(\"ab\")", true);
+    add(A_VAL, vptr(K_PTR, nullptr, "NULL"), "void*", "setValue((void*)NULL)", true); add(A_VAL, vptr(K_PTR, rb, "rb"), "void*", "setValue((void*)rb)", true);
+    add(A_VAL, vptr(K_CPTR, nullptr, "NULL"), "const void*", "setValue((const void*)NULL)", true); add(A_VAL, vptr(K_CPTR, rb, "rb"), "const void*", "setValue((const void*)rb)", true);
+    add(A_VAL, vfptr(nullptr, "NULL"), "void (*)()", "setValue((void(*)())NULL)", true); add(A_VAL, vfptr(fn_f, "f"), "void (*)()", "setValue(f)", true);
+    add(A_VAL, vmem(rb, 0, "rb,0"), "memory buffer", "setMemoryBuffer(rb,0)", true); add(A_VAL, vmem(rb, 1, "rb,1"), "memory buffer", "setMemoryBuffer(rb,1)", false);
+    add(A_VAL, vmem(rb, 2, "rb,2"), "memory buffer", "setMemoryBuffer(rb,2)", true); add(A_VAL, vmem(rb, 3, "rb,3"), "memory buffer", "setMemoryBuffer(rb,3)", false);
+    add(A_VAL, vmem(rb2, 2, "rb2,2"), "memory buffer", "setMemoryBuffer(rb2,2) [same bytes as rb,2]", false); add(A_VAL, vmem(nullptr, 0, "NULL,0"), "memory buffer", "setMemoryBuffer(NULL,0)", false);
+    add(A_OBJ, vptr(K_PTR, &c1, "&c1"), "object", "setObjectPointer(\"C\" [has comparator], &c1 [=1])", true, "C");
+    add(A_OBJ, vptr(K_PTR, &c3, "&c3"), "object", "setObjectPointer(\"C\" [has comparator], &c3 [=2])", false, "C");
+    add(A_OBJ, vptr(K_PTR, &c1, "&c1"), "object", "setObjectPointer(\"T\" [no comparator], &c1)", true, "T");
+    add(A_COBJ, vptr(K_CPTR, &c2, "&c2"), "const object", "setConstObjectPointer(\"C\" [has comparator], &c2 [=1])", true, "C");
+    add(A_COBJ, vptr(K_CPTR, &c3, "&c3"), "const object", "setConstObjectPointer(\"C\" [has comparator], &c3 [=2])", false, "C");
+    add(A_COBJ, vptr(K_CPTR, &c2, "&c2"), "const object", "setConstObjectPointer(\"T\" [no comparator], &c2)", true, "T");
+
+    std::vector<int> first;
+    for (int i = 0; i < (int)A.size(); i++) if (T || A[i].rep) first.push_back(i);
+    // probe set: one fresh object per action of the alphabet
+    std::vector<Slot*> probes;
+    for (auto& a : A) { Slot* s = new Slot(0); apply_act(*s->v, a); probes.push_back(s); }
+    const long NA = (long)A.size(), NF = (long)first.size();
+    const char* const MID[3] = {"", " setSize(7)", " setName(\"q\")"};
+    vf::info("reuse" + X + ".bound", vf::fmt("reused object: construct(\"p\"), FIRST set, [nothing | setSize(7) | setName(\"q\")], SECOND set, [nothing | setSize(4; for a memory buffer 1 or, on NULL, 0)]; fresh object: construct(\"p\" or \"q\"), SECOND set, [same tail]. "
+                                             "FIRST over %ld setters (%s), SECOND over all %ld setters of the alphabet: bool x2; the six integer types x {0,1,max,min}; setValue(double) without tolerance x {1,5,0,inf,NaN}; "
+                                             "setValue(double,tolerance) x {(1,0),(1,0.4),(5,1e300),(1,inf),(1,NaN),(1.3,.005),(1.004,.005),(5.3,.005),(1,.005)}; strings \"\",\"a\",\"ab\"; void*/const void*/function pointer x {NULL, one address}; "
+                                             "setMemoryBuffer x {(rb,0..3),(rb2,2),(NULL,0)}; setObjectPointer/setConstObjectPointer x {type C with comparator+copier: two objects of equal and one of different content; type T without comparator}. "
+                                             "Compared reused vs fresh: getName, getType, toString, every getter that is legal for the second value (incl. getDoubleTolerance), getSize (when the second step defines it), comparator/copier (object types), "
+                                             "and equals() in both directions against %ld fresh probe values (the alphabet itself) and a fresh twin", NF, T ? "the whole alphabet" : "one to three representatives per kind", NA, NA));
+    vf::section_index("reuse" + X, NF * 3 * NA * 2, [&](long idx) {
+        vf::Radix r(idx);
+        const int end = (int)r.take(2), mid = (int)r.take(3);
+        const int i2 = (int)r.take(NA), i1 = first[r.take(NF)];
+        const Act &a1 = A[i1], &a2 = A[i2];
+        Slot R(0, "p"), F(0, mid == 2 ? "q" : "p"), W(0, mid == 2 ? "q" : "p");
+        vf::ctx("first-set"); apply_act(*R.v, a1);
+        vf::ctx("between"); if (mid == 1) R.v->setSize(7); if (mid == 2) R.v->setName("q");
+        vf::ctx("second-set"); apply_act(*R.v, a2); apply_act(*F.v, a2); apply_act(*W.v, a2);
+        // the explicit size afterwards must stay inside the storage when the value is a memory buffer (rb: 3 bytes, rb2: 2, NULL: 0)
+        const size_t endsize = !(a2.how == A_VAL && a2.v.kind == K_MEM) ? 4 : a2.v.p ? 1 : 0;
+        if (end) { R.v->setSize(endsize); F.v->setSize(endsize); W.v->setSize(endsize); }
+        const std::string tail = end ? vf::fmt(" setSize(%zu)", endsize) : std::string();
+        const std::string txt = "reused: " + a1.label + MID[mid] + " then " + a2.label + tail + "  vs fresh: " + a2.label + tail;
+        Obs oR, oF;
+        vf::ctx("observe-reused"); observe(*R.v, a2, oR);
+        vf::ctx("observe-fresh"); observe(*F.v, a2, oF);
+        vf::count("ops", 4);
+        if (vf::want_sample()) vf::sample(txt + " -> type " + oR.type + ", text " + oR.text + ", " + oR.getters);
+        if (!oF.complete || oF.failures) vf::fail("reuse/fresh-object-getter-fails", txt + ": a getter that is legal for the value failed on the FRESH object after: " + oF.getters);
+        if (oR.type != oF.type) vf::fail("reuse/type-differs", txt + ": getType \"" + oR.type + "\" vs \"" + oF.type + "\"");
+        if (oR.text != oF.text || oR.name != oF.name) vf::fail("reuse/text-differs", txt + ": toString/getName \"" + vf::esc(oR.text) + "\"/\"" + oR.name + "\" vs \"" + vf::esc(oF.text) + "\"/\"" + oF.name + "\"");
+        if (oR.getters != oF.getters || oR.complete != oF.complete || oR.failures != oF.failures)
+            vf::fail("reuse/getter-differs", txt + vf::fmt(": reused {%s}%s vs fresh {%s}%s", oR.getters.c_str(), oR.complete ? "" : " (test failed)", oF.getters.c_str(), oF.complete ? "" : " (test failed)"));
+        // getSize is defined by the second step only for setMemoryBuffer or an explicit setSize afterwards; the comparator/copier only for object types
+        const bool size_defined = end || (a2.how == A_VAL && a2.v.kind == K_MEM);
+        bool stale_size = false, stale_cmp = false;
+        if (oR.size != oF.size) { if (size_defined) vf::fail("reuse/size-differs", txt + vf::fmt(": getSize %zu vs %zu", oR.size, oF.size)); else { stale_size = true; vf::count("not_asserted_stale_getSize"); } }
+        if (oR.comparator != oF.comparator || oR.copier != oF.copier) {
+            if (a2.is_obj()) vf::fail("reuse/comparator-differs", txt + vf::fmt(": comparator/copier present %d/%d vs %d/%d", oR.comparator != nullptr, oR.copier != nullptr, oF.comparator != nullptr, oF.copier != nullptr));
+            else { stale_cmp = true; vf::count("not_asserted_stale_comparator"); }
+        }
+        // equals verdicts against every probe and a fresh twin, both directions
+        vf::ctx("equals-vs-probes");
+        int eqs = 0;
+        // the fresh side depends on (second setter, tail) only: computed once per worker process from this case's own fresh objects
+        static std::map<int, std::string> fresh_verdicts;
+        auto fit = fresh_verdicts.find(i2 * 2 + end);
+        if (fit == fresh_verdicts.end()) {
+            std::string fv;
+            for (long k = 0; k <= NA; k++) { const MockNamedValue& p = k < NA ? *probes[k]->v : *W.v; fv += F.v->equals(p) ? '1' : '0'; fv += p.equals(*F.v) ? '1' : '0'; }
+            vf::count("ops", 2 * (NA + 1));
+            fit = fresh_verdicts.insert({i2 * 2 + end, fv}).first;
+        }
+        const std::string& fv = fit->second;
+        for (long k = 0; k <= NA; k++) {
+            const MockNamedValue& p = k < NA ? *probes[k]->v : *W.v;
+            bool r1 = R.v->equals(p), f1 = fv[2 * k] == '1', r2 = p.equals(*R.v), f2 = fv[2 * k + 1] == '1';
+            eqs += r1 + r2;
+            if (r1 != f1 || r2 != f2)
+                vf::fail("reuse/equals-verdict-differs", txt + ": against " + (k < NA ? "probe " + A[k].label : std::string("a fresh twin")) + vf::fmt(": reused.equals(probe)=%d fresh.equals(probe)=%d; probe.equals(reused)=%d probe.equals(fresh)=%d", r1, f1, r2, f2));
+        }
+        vf::count("ops", 2 * (NA + 1));
+        vf::outcome(a1.gname + " -> " + a2.gname + (stale_size ? " [getSize keeps the earlier size: not asserted]" : "") + (stale_cmp ? " [comparator/copier of the earlier object type kept: not asserted]" : "") + (eqs ? " matches>0" : " matches=0"));
+        if (i1 != i2) vf::count("nontrivial");
+    });
+    vf::require_outcomes("reuse" + X, 100);
+    MockNamedValue::setDefaultComparatorsAndCopiersRepository(nullptr);
+    for (Slot* s : probes) delete s;
+}
 
 // All sections of one tier. The driver replays a case without telling the tier, so the sections of the thorough
 // tier carry their own names (suffix X = ".t") and a replay run registers both sets.
@@ -632,6 +816,7 @@ static void run_all(const bool T, const std::string& X) {
         });
         vf::require_outcomes("api_return" + X, 40);
     }
+    run_reuse(T, X);
 }
 
 int main(int argc, char** argv) {
